@@ -155,6 +155,21 @@ var Sockets = map[string]Ctor{
 	"bus": bus.NewSocket, "xbus": xbus.NewSocket, "star": star.NewSocket, "xstar": xstar.NewSocket,
 }
 
+// Protocols: protocol-level constructors (for mock pipes).
+var Protocols = map[string]func() mangos.ProtocolBase{
+	"pair": pair.NewProtocol, "xpair": xpair.NewProtocol, "pair1": pair1.NewProtocol, "xpair1": xpair1.NewProtocol,
+	"pub": pub.NewProtocol, "xpub": xpub.NewProtocol, "sub": sub.NewProtocol, "xsub": xsub.NewProtocol,
+	"req": req.NewProtocol, "xreq": xreq.NewProtocol, "rep": rep.NewProtocol, "xrep": xrep.NewProtocol,
+	"push": push.NewProtocol, "xpush": xpush.NewProtocol, "pull": pull.NewProtocol, "xpull": xpull.NewProtocol,
+	"surveyor": surveyor.NewProtocol, "xsurveyor": xsurveyor.NewProtocol,
+	"respondent": respondent.NewProtocol, "xrespondent": xrespondent.NewProtocol,
+	"bus": bus.NewProtocol, "xbus": xbus.NewProtocol, "star": star.NewProtocol, "xstar": xstar.NewProtocol,
+}
+
+// AllNames lists the 24 protocol implementations.
+var AllNames = []string{"pair", "xpair", "pair1", "xpair1", "pub", "xpub", "sub", "xsub", "req", "xreq", "rep", "xrep", "push", "xpush",
+	"pull", "xpull", "surveyor", "xsurveyor", "respondent", "xrespondent", "bus", "xbus", "star", "xstar"}
+
 // New makes a socket by name or panics.
 func New(name string) mangos.Socket {
 	s, err := Sockets[name]()
